@@ -178,6 +178,11 @@ fn corpus_programs(tier: &str, with_comments: bool) -> (Vec<(String, String)>, V
     for p in lives {
         progs.push(("LIVE".into(), p));
     }
+    let nests = corpus::gen_nest(sd, if thorough { 4000 } else { 700 });
+    let nest_count = nests.len();
+    for p in nests {
+        progs.push(("NEST".into(), p));
+    }
     let rots = corpus::gen_rot(sd, if thorough { 300 } else { 40 });
     let rot_count = rots.len();
     for p in rots {
@@ -223,6 +228,7 @@ fn corpus_programs(tier: &str, with_comments: bool) -> (Vec<(String, String)>, V
         "RAND": format!("{} short random programs from a grammar biased to clear loops, scans, (un)balanced loops and I/O next to loops (seed {})", rand_count, sd),
         "PRESSURE": format!("{} programs keeping values alive across loops, ifs and I/O (copy idioms inside input-controlled nested loops; seed {})", press_count, sd),
         "LIVE": format!("{} programs keeping 3..14 values alive across I/O and far moves (seed {})", live_count, sd),
+        "NEST": format!("{} loops whose body holds a pointer-moving inner loop followed by loops / I/O at the shifted offsets (seed {})", nest_count, sd),
         "ROT": format!("{} k-cell rotations with arithmetic inside an input-controlled loop, k up to 16 (stack temporaries in the JIT; seed {})", rot_count, sd),
         "STRUCT": format!("{} structured programs (assignments, preserving/destructive multiply-adds, counted loops, ifs over 4 variables; seed {})", struct_count, sd),
         "REPO": format!("{} programs extracted from src/exec/testdef.rs and examples/", repo_count),
